@@ -470,8 +470,15 @@ def b20(ctx, orc):
     fails = []
     lat = ctx.lattice
     cs = list(lat)
-    for mo, mp, tag in ((' '.join, ' '.join, 'default'), (lambda xs: '+'.join(xs) + '!', lambda xs: '/'.join(reversed(xs)), 'custom')):
-        kw = {} if tag == 'default' else {'make_object_label': mo, 'make_property_label': mp}
+    custom_o = lambda xs: '+'.join(xs) + '!'
+    custom_p = lambda xs: '/'.join(reversed(xs))
+    for mo, mp, tag in ((' '.join, ' '.join, 'default'), (custom_o, custom_p, 'custom'),
+                        (custom_o, ' '.join, 'custom-object-only'), (' '.join, custom_p, 'custom-property-only')):
+        kw = {}
+        if mo is custom_o:
+            kw['make_object_label'] = mo
+        if mp is custom_p:
+            kw['make_property_label'] = mp
         dot = lat.graphviz(**kw)
         nodes, edges, labels = parse_dot(dot.source)
         if nodes != [f'c{c.index}' for c in cs] or len(set(nodes)) != len(cs):
@@ -829,7 +836,7 @@ def _perm_list(k):
         return list(itertools.permutations(range(k)))
     ident = list(range(k))
     out = [tuple(ident), tuple(reversed(ident)), tuple(ident[1:] + ident[:1])]
-    for i in range(k - 1):
+    for i in (range(k - 1) if k <= 6 else [0, k // 2, min(k - 2, 63)]):
         p = list(ident)
         p[i], p[i + 1] = p[i + 1], p[i]
         out.append(tuple(p))
@@ -876,7 +883,7 @@ def b15(ctx, orc):
     # duplicated row / duplicated column / full column
     intents = frozenset(k[1] for k in base['concepts'])
     extents = frozenset(k[0] for k in base['concepts'])
-    for i in range(n):
+    for i in (range(n) if n <= 6 else [0, n - 1, min(n - 1, 63)]):
         for pos in {0, i + 1, n}:
             objs = list(orc.objects)
             table = [tuple(r) for r in orc.table]
@@ -885,7 +892,7 @@ def b15(ctx, orc):
             st = label_structure(C(objs, orc.properties, table))
             if frozenset(k[1] for k in st['concepts']) != intents or st['count'] != base['count']:
                 fails.append(f'copy of row {i} inserted at {pos}: family of intents / number of concepts changed')
-    for j in range(m):
+    for j in (range(m) if m <= 6 else [0, m - 1, min(m - 1, 63)]):
         for pos in {0, j + 1, m}:
             props = list(orc.properties)
             props.insert(pos, 'copy_of_' + orc.properties[j])
@@ -904,6 +911,33 @@ def b15(ctx, orc):
         st = label_structure(C(orc.objects, props, [tuple(r) for r in table]))
         if frozenset(k[0] for k in st['concepts']) != extents or st['count'] != base['count']:
             fails.append(f'full column inserted at {pos}: family of extents / number of concepts changed')
+    # relabelling through a Definition: swap two labels via a temporary name (rename back and forth), move rows/columns
+    def relabel(st, mp):
+        f = lambda k: (frozenset(mp.get(x, x) for x in k[0]), frozenset(mp.get(x, x) for x in k[1]))
+        return {'concepts': frozenset(f(k) for k in st['concepts']),
+                'covers': frozenset((f(a), f(b)) for a, b in st['covers']), 'count': st['count']}
+    d = ctx.definition()
+    mp = {}
+    if n > 1:
+        a, b = orc.objects[0], orc.objects[-1]
+        d.rename_object(a, 'tmp_label')
+        d.rename_object(b, a)
+        d.rename_object('tmp_label', b)
+        mp.update({a: b, b: a})
+        d.move_object(a, 0)
+    if m > 1:
+        a, b = orc.properties[0], orc.properties[-1]
+        d.rename_property(a, 'tmp_label')
+        d.rename_property(b, a)
+        d.rename_property('tmp_label', b)
+        mp.update({a: b, b: a})
+        d.move_property(b, m - 1)
+    st = label_structure(C(*d))
+    want = relabel(base, mp)
+    for k in ('concepts', 'covers', 'count'):
+        if st[k] != want[k]:
+            fails.append(f'labels swapped through Definition.rename_*/move_*: {k} is not the relabelled structure')
+            break
     # the FCbO generators see the same invariances (sets of concepts)
     from concepts import algorithms
     for gen_ in (algorithms.fast_generate_from, algorithms.fcbo_dual):
@@ -914,6 +948,47 @@ def b15(ctx, orc):
         if got != base['concepts']:
             fails.append(f'{gen_.__name__} on the transposed table is not the dual')
     return fails
+
+
+def probe_case(case):
+    """A small-lattice table on which lattice construction and lookups derive exactly the query set of a kernel
+    counterexample (and its prefixes), so that a width-dependent kernel defect shows through the public API."""
+    side, labels = case.get('side'), case.get('labels') or []
+    names = case['objects'] if side == 'intension' else case['properties']
+    idx = [names.index(x) for x in labels if x in names]
+    if not idx:
+        return None
+    k = len(names)
+    sets = [{i} for i in idx] + [set(idx[:j]) for j in range(2, len(idx) + 1)]
+    if len(sets) > 40:
+        sets = [{i} for i in idx[:20]] + [set(idx)]
+    own = [f'o{i}' for i in range(k)] if side == 'intension' else [f'p{i}' for i in range(k)]
+    other = [f'q{j}' for j in range(len(sets))] if side == 'intension' else [f'r{j}' for j in range(len(sets))]
+    if side == 'intension':
+        table = [[i in sets[j] for j in range(len(sets))] for i in range(k)]
+        return {'objects': own, 'properties': other, 'table': table}
+    table = [[i in sets[j] for i in range(k)] for j in range(len(sets))]
+    return {'objects': other, 'properties': own, 'table': table}
+
+
+def decoys(concepts, objects, properties, table, battery=None):
+    """Other live contexts that are created AND used before the context under observation is queried: the same labels
+    with the complemented table, and other labels with a rotated table.  Nothing one context does may change what
+    another answers (shared caches, class-level state)."""
+    out = []
+    n, m = len(objects), len(properties)
+    t1 = [tuple(not c for c in row) for row in table]
+    t2 = [tuple(table[(i + 1) % n][(j + 1) % m] for j in range(m)) for i in range(n)]
+    for objs, props, t in ((objects, properties, t1), ([f'x{o}' for o in objects], [f'y{p}' for p in properties], t2)):
+        d = concepts.Context(objs, props, t)
+        d.lattice
+        if battery is not None and n <= 12 and m <= 12:
+            try:
+                battery(d, Oracle(objs, props, t))
+            except Exception:
+                pass
+        out.append(d)
+    return out
 
 
 def make(concepts, case):
